@@ -2,7 +2,7 @@
   Parser safety, part 1: the result predicate `Ok`, the cursor relation `Adv`, and the
   specifications of the leaf functions of `Model/Parser.lean`.
 
-  `Ok P r` says: `r` is `.ok b` with `P b`, or `.error (.code _)`. It is *false* for
+  `Ok P r` says: `r` is `.ok b` with `P b`, or `.error (.code c)` with `c ≠ 0` (0 is `WBXML_OK`). It is *false* for
   `.error (.ub _)`, `.error .fuel` and `.error (.crash _)`; so a proof of `Ok _ (f s)` is at the same
   time the no-UB statement, the fuel statement and the post-condition of a successful run.
 -/
@@ -10,16 +10,23 @@ import Wbxml.Model.Parser
 namespace Wbxml.Lemmas.ParserSafe
 open Wbxml Wbxml.Model
 
+-- The error-code constants are literals (none of them is 0 = `WBXML_OK`).
+attribute [local simp] E.badDatetime E.internal E.langTableUndefined E.tagTableUndefined E.b64Enc
+  E.wvDatetimeFormat E.noCharsetConv E.charsetStrLen E.charsetNotFound E.attrTableUndefined
+  E.attrValueTableUndefined E.badOpaqueLength E.emptyWbxml E.endOfBuffer E.extValueTableUndefined
+  E.invalidStrtblIndex E.nullStringTable E.stringExpected E.strtblLength E.unknownAttrValue
+  E.unknownExtensionToken E.unknownPublicId E.unvalidMbUint32 E.wvIntegerOverflow E.invalidUnicode
+
 /-! ### The result predicate -/
 
 def Ok {β : Type} (P : β → Prop) : Except Err β → Prop
   | .ok b => P b
-  | .error (.code _) => True
+  | .error (.code c) => c ≠ 0
   | .error _ => False
 
 @[simp] theorem Ok_ok {β} {P : β → Prop} {b : β} : Ok P (.ok b) = P b := rfl
 @[simp] theorem Ok_pure {β} {P : β → Prop} {b : β} : Ok P (pure b : Except Err β) = P b := rfl
-@[simp] theorem Ok_code {β} {P : β → Prop} {c : Nat} : Ok P (.error (.code c) : Except Err β) = True := rfl
+@[simp] theorem Ok_code {β} {P : β → Prop} {c : Nat} : Ok P (.error (.code c) : Except Err β) = (c ≠ 0) := rfl
 @[simp] theorem Ok_fuel {β} {P : β → Prop} : Ok P (.error .fuel : Except Err β) = False := rfl
 @[simp] theorem Ok_ub {β} {P : β → Prop} {w : String} : Ok P (.error (.ub w) : Except Err β) = False := rfl
 @[simp] theorem Ok_crash {β} {P : β → Prop} {w : String} : Ok P (.error (.crash w) : Except Err β) = False := rfl
@@ -50,12 +57,12 @@ theorem Ok.not_crash {β : Type} {P : β → Prop} {m : Except Err β} (hm : Ok 
 
 /-- Totality: an `Ok` result is a success or a library error code. -/
 theorem Ok.cases {β : Type} {P : β → Prop} {m : Except Err β} (hm : Ok P m) :
-    (∃ b, m = .ok b ∧ P b) ∨ (∃ c, m = .error (.code c)) := by
+    (∃ b, m = .ok b ∧ P b) ∨ (∃ c, m = .error (.code c) ∧ c ≠ 0) := by
   cases m with
   | ok b => exact Or.inl ⟨b, rfl, hm⟩
   | error e =>
     cases e with
-    | code c => exact Or.inr ⟨c, rfl⟩
+    | code c => exact Or.inr ⟨c, rfl, hm⟩
     | ub w => exact absurd hm (by simp)
     | fuel => exact absurd hm (by simp)
     | crash w => exact absurd hm (by simp)
